@@ -42,3 +42,21 @@ func verif_contract_Checksum(b []byte) uint16 {
 	ret := Checksum(b)
 	return ret
 }
+
+// ---------- loops of the view accessors (C01, C08) ----------
+
+func verif_inv_DHCP4_validateOptions_1() bool            { return true }
+func verif_dec_DHCP4_validateOptions_1(opts []byte) int  { return len(opts) }
+func verif_inv_DHCP4_ParseOptions_1() bool               { return true }
+func verif_dec_DHCP4_ParseOptions_1(opts []byte) int     { return len(opts) }
+func verif_inv_ICMP4Redirect_Addrs_1(i int) bool         { return 0 <= i && i <= 256 }
+func verif_dec_ICMP4Redirect_Addrs_1(i int) int          { return 256 - i }
+func verif_inv_trimNull_1(rangeindex int, d []byte) bool { return -1 <= rangeindex && rangeindex < len(d) }
+func verif_dec_trimNull_1(rangeindex int, d []byte) int  { return len(d) - rangeindex }
+
+func verif_inv_HopByHopExtensionHeader_ParseHopByHopExtensions_1(pos int, data []byte) bool {
+	return 0 <= pos && pos < len(data)
+}
+func verif_dec_HopByHopExtensionHeader_ParseHopByHopExtensions_1(pos int, data []byte) int {
+	return len(data) - pos
+}
